@@ -28,15 +28,16 @@ type specimen struct {
 var specimens = []specimen{
 	{"str-abc", "abc", []ruleV{{"to=2~4", false}, {"to=5~9", true}, {"oto=3~5", true}, {"ge=3", false}, {"gt=3", true}, {"le=2", true},
 		{"lt=4", false}, {"eq=3", false}, {"eq=4", true}, {"noeq=3", true}, {"in=(abc/x)", false}, {"in=(x/y)", true}, {"include=(bc)", false},
-		{"include=(zz)", true}, {"phone", true}, {"int", true}, {"email", true}, {"prefix=ab", false}, {"suffix=zz", true}, {"unique", false}, {"ints", true}}},
+		{"include=(zz)", true}, {"phone", true}, {"int", true}, {"email", true}, {"prefix=ab", false}, {"suffix=zz", true}, {"unique", false}, {"ints", true},
+		{"to=5~2", true}, {"oto=3~3", true}, {"in=('a,b'/abc)", false}, {"in=('x,y'/z)", true}, {"suffix='zz'", true}, {"prefix='ab'", false}, {"include=('b,c'/bc)", false}}},
 	{"str-phone", "13812345678", []ruleV{{"phone", false}, {"int", false}, {"ints", false}, {"to=11~11", false}, {"eq=10", true}, {"idcard", true}, {"float", true}}},
 	{"str-cjk", "中文字", []ruleV{{"to=3~3", false}, {"eq=3", false}, {"gt=3", true}, {"le=2", true}, {"prefix=中", false}, {"eq=9", true}}},
 	{"str-mail", "a@b.cn", []ruleV{{"email", false}, {"phone", true}, {"include=(@)", false}, {"lt=6", true}}},
 	{"int-7", 7, []ruleV{{"ge=5", false}, {"ge=9", true}, {"le=9", false}, {"le=5", true}, {"gt=7", true}, {"lt=7", true}, {"lt=8", false},
-		{"eq=7", false}, {"noeq=7", true}, {"in=(7/8)", false}, {"in=(1/2)", true}, {"int", false}, {"float", true}, {"to=-3~7", false}, {"oto=-3~7", true}}},
+		{"eq=7", false}, {"noeq=7", true}, {"in=(7/8)", false}, {"in=(1/2)", true}, {"int", false}, {"float", true}, {"to=-3~7", false}, {"oto=-3~7", true}, {"to=9~5", true}, {"oto=7~4", true}, {"in=('7'/8)", false}}},
 	{"int8-7", int8(7), []ruleV{{"ge=5", false}, {"gt=7", true}, {"eq=7", false}, {"le=5", true}}},
 	{"int64-neg", int64(-4), []ruleV{{"ge=-4", false}, {"gt=-4", true}, {"le=-5", true}, {"eq=-4", false}, {"to=-9~-1", false}}},
-	{"uint-5", uint(5), []ruleV{{"gt=5", true}, {"ge=-1", false}, {"le=-1", true}, {"eq=5", false}, {"in=(5)", false}, {"to=1~4", true}, {"lt=6", false}}},
+	{"uint-5", uint(5), []ruleV{{"gt=5", true}, {"ge=-1", false}, {"le=-1", true}, {"eq=5", false}, {"in=(5)", false}, {"to=1~4", true}, {"lt=6", false}, {"to=9~1", true}}},
 	{"uint16-5", uint16(5), []ruleV{{"gt=4", false}, {"lt=5", true}, {"noeq=5", true}}},
 	{"f64-2.5", 2.5, []ruleV{{"ge=2", false}, {"ge=3", true}, {"lt=3", false}, {"eq=2", true}, {"float", false}, {"int", true}, {"in=(2.5)", false}}},
 	{"f32-2", float32(2), []ruleV{{"eq=2", false}, {"in=(2/3)", false}, {"le=1", true}, {"gt=2", true}}},
